@@ -1,0 +1,66 @@
+//go:build verif
+
+package ccontainer
+
+// Contracts for GoVC (see /verif/DESIGN.md). Comment-only: compiles to nothing.
+//
+// CContainer is a monitor: bcast.mtx guards val; equal is immutable. Every change of val broadcasts in
+// the same critical section (TV). GetValue / SetValue / SwapValue are one critical section each, the
+// SwapValue callback runs inside it (so no update can be lost or interleaved). A waiter samples the value
+// and the wait channel in one critical section (assertion at the closure exit) and then listens to
+// ctx.Done(), errCh and exactly that channel: by the Broadcast invariants the channel is open only while
+// no later critical section changed the value, i.e. while the cell still holds the sampled value, for
+// which the condition was evaluated false.
+// seen(v): this invocation read v from the cell inside a critical section (thread-local ghost).
+//
+//@ ghostmap seen: any -> bool local
+//
+//@ object CContainer
+//@   props C15 C13
+//@   lock bcast.mtx
+//@   guarded val
+//@   immutable equal
+//@   trans TV: this.val != old(this.val) ==> (old(this.bcast.ch) != nil ==> closed(old(this.bcast.ch)))
+//
+//@ func (*CContainer).GetValue
+//@   props C15
+//@   opt frame = skip
+//@   ensures sampled: result == val
+//
+//@ closure (*CContainer).GetValue$1
+//@   assert exit: val == c.val
+//
+//@ func (*CContainer).SetValue
+//@   props C15
+//@   opt frame = skip
+//@   opt pure-callbacks = equal
+//
+//@ func (*CContainer).SwapValue
+//@   props C15
+//@   opt frame = skip
+//@   opt pure-callbacks = equal
+//@   requires distinct: cb != c.equal
+//@   ensures once: cb != nil ==> calls(cb) == old(calls(cb)) + 1
+//@   ensures result: cb != nil ==> result == lastret(cb, 0)
+//
+//@ closure (*CContainer).SwapValue$1
+//@   assert exit: cb == nil ==> val == c.val && c.val == old(c.val)
+//@   assert exit: cb != nil ==> lastarg(cb, 0) == old(c.val) && (c.val == lastret(cb, 0) || c.val == old(c.val))
+//
+//@ func (*CContainer).WaitValueWithValidator
+//@   props C15
+//@   opt frame = skip
+//@   opt pure-callbacks = equal
+//@   requires ctx != nil
+//@   ensures held: result1 == nil ==> seen(result0)
+//@   ensures valid: result1 == nil && valid != nil ==> calls(valid) > old(calls(valid)) && lastarg(valid, 0) == result0 && lastret(valid, 0) && lastret(valid, 1) == nil
+//@   ensures source: result1 != nil ==> (valid != nil && calls(valid) > old(calls(valid)) && result1 == lastret(valid, 1)) || cancelled(ctx) || recvs(errCh) > old(recvs(errCh))
+//@   loop 1 invariant counts: (valid != nil ==> calls(valid) >= old(calls(valid))) && recvs(errCh) >= old(recvs(errCh))
+//@   assert select 1: selects(wake) && selects(done(ctx)) && selects(errCh)
+//@   assert select 1: wake != nil && issuedBy(wake) == c.bcast
+//@   assert select 1: gettime(wake) == lastcs()
+//@   assert select 1: seen(val)
+//
+//@ closure (*CContainer).WaitValueWithValidator$1
+//@   ghost exit: seen(val) := true
+//@   assert exit: val == c.val && wake != nil && wake == c.bcast.ch
